@@ -10,6 +10,16 @@ structure GInv (s : St) : Prop where
   inv : Inv s
   want : s.gone = false → s.len ≠ 0 → (s.want || s.console) = true
 
+/-- the oracle ignores snoop forwarding -/
+theorem judgeFrom_snoopEvs (j : J) (s : St) (d : List Byte) : judgeFrom j (snoopEvs s d) = j := by
+  unfold snoopEvs; cases s.snoopBy <;> rfl
+
+theorem judgeFrom_ite_snoopEvs (j : J) (c : Prop) [Decidable c] (s : St) (d : List Byte) :
+    judgeFrom j (if c then [] else snoopEvs s d) = j := by
+  split
+  · rfl
+  · exact judgeFrom_snoopEvs j s d
+
 theorem wend_rel {s : St} {x : Option (List Byte)} {j : J} (h : Rel s x j) : Rel s none (jstep j .wend) :=
   ⟨h.bad, h.dead, fun hg => ⟨(h.q hg).1, rfl⟩⟩
 
@@ -85,7 +95,7 @@ theorem addMessage_spec {s : St} {j : J} (v : Bool) (d : List Byte) (hgi : GInv 
       cases hcons : s.console with
       | true =>
         simp only [if_true]
-        simp only [judgeFrom_cons, judgeFrom_append, judgeFrom_nil]
+        simp only [judgeFrom_cons, judgeFrom_append, judgeFrom_nil, judgeFrom_snoopEvs, judgeFrom_ite_snoopEvs]
         by_cases hret : (addLoop d s).2.2 = .ret
         · rw [if_pos hret]
           have hgone := r3 hret
@@ -108,7 +118,7 @@ theorem addMessage_spec {s : St} {j : J} (v : Bool) (d : List Byte) (hgi : GInv 
           · simp [hw]
       | false =>
         simp only [Bool.false_eq_true, if_false]
-        simp only [judgeFrom_cons, judgeFrom_append, judgeFrom_nil]
+        simp only [judgeFrom_cons, judgeFrom_append, judgeFrom_nil, judgeFrom_snoopEvs, judgeFrom_ite_snoopEvs]
         by_cases hret : (addLoop d s).2.2 = .ret
         · rw [if_pos hret]
           have hgone := r3 hret
@@ -119,7 +129,7 @@ theorem addMessage_spec {s : St} {j : J} (v : Bool) (d : List Byte) (hgi : GInv 
           exact ⟨hw.bad, hw.dead, hw.q⟩
     | true =>
       simp only [if_true]
-      simp only [judgeFrom_cons, judgeFrom_append, judgeFrom_nil]
+      simp only [judgeFrom_cons, judgeFrom_append, judgeFrom_nil, judgeFrom_snoopEvs, judgeFrom_ite_snoopEvs]
       by_cases h0 : (addLoop d s).1.len = 0
       · have hne : ¬ (addLoop d s).1.len ≠ 0 := by simp [h0]
         rw [if_neg hne]
@@ -210,6 +220,9 @@ theorem step_spec {s : St} {j : J} (op : Op) (hgi : GInv s) (hr : Rel s none j) 
   | dump =>
     simp only [step, judgeFrom_cons, judgeFrom_nil, jstep]
     exact ⟨hgi, hr⟩
+  | snoopBy k =>
+    simp only [step, judgeFrom_nil]
+    exact ⟨⟨hgi.inv.of_eq rfl rfl rfl rfl rfl, hgi.want⟩, ⟨hr.bad, hr.dead, hr.q⟩⟩
 
 theorem runFrom_spec : ∀ (ops : List Op) (s : St) (j : J), GInv s → Rel s none j →
     GInv (runFrom s ops).1 ∧ Rel (runFrom s ops).1 none (judgeFrom j (runFrom s ops).2) := by
